@@ -32,7 +32,8 @@ L1 == <<
     "  - > q", "   > - r", "  1. > s", "    > t",
     "||a|", "|a||",
     ">  ```", "#######", "   >  ~~~", "###### ", "#\t#",
-    "[a]: javascript:x", "[A]: data:text/html,y 't'", "- [a]: /u", "> [a]: /u"
+    "[a]: javascript:x", "[A]: data:text/html,y 't'", "- [a]: /u", "> [a]: /u",
+    "- <!--", "  x -->", "1. <pre>", "- <?"
 >>
 L1Core == {1, 5, 8, 10, 13, 15, 22, 23, 30, 33, 39, 45, 47, 53, 60, 72, 76, 82, 84, 90, 95}
 L2 == <<
@@ -47,7 +48,7 @@ L2 == <<
     "'s", "\"q\"", "1", "<!-- c -->", "<?p?>", "&#0;", "&#xD800;", "![a *b*](/s 't')",
     "(tM)", "(Tm)", "(C)", "(R)", "\\!!!!", "\\?", ",,", "\\,,"
 >>
-L1Mid == {123, 124, 1, 4, 5, 7, 8, 9, 10, 11, 12, 13, 14, 15, 16, 22, 23, 24, 26, 27, 29, 30, 31, 33, 34, 39, 40, 45, 46, 47, 48, 53, 55, 56, 60, 61, 72, 73, 74, 76, 77, 82, 83, 84, 85, 90, 91, 92, 93, 94, 95, 96, 97, 98, 99}
+L1Mid == {125, 126, 127, 123, 124, 1, 4, 5, 7, 8, 9, 10, 11, 12, 13, 14, 15, 16, 22, 23, 24, 26, 27, 29, 30, 31, 33, 34, 39, 40, 45, 46, 47, 48, 53, 55, 56, 60, 61, 72, 73, 74, 76, 77, 82, 83, 84, 85, 90, 91, 92, 93, 94, 95, 96, 97, 98, 99}
 L2Core == {1, 2, 3, 6, 11, 15, 23, 26, 33, 44, 48, 50}
 L2Mid == {1, 2, 3, 4, 6, 8, 11, 13, 15, 16, 17, 18, 19, 22, 23, 24, 26, 27, 29, 30, 33, 35, 36, 40, 41, 44, 45, 48, 50, 51, 52, 57}
 L2All == 1..80
